@@ -10,7 +10,7 @@ SHARD = 2
 RULE = ("(a) injection rule: placed uniform / Gaussian plane sources on every axis and direction in random diagonal media; what update_E / update_H add to a "
         "zero field must equal the model's inject_E / inject_H of the source's own incident samples, nothing outside the source plane, nothing on the normal "
         "component; (b) measured leak: back/front Poynting flux ratio of uniform plane sources (CW and pulsed, >= 15 cells per wavelength, PML along the axis, "
-        "periodic transversally) < 1e-3 and of Gaussian beams (radius >= 0.3 wavelengths) < 10 %")
+        "periodic transversally, vacuum and homogeneous dielectrics eps 2.25 / 4 / 12) < 1e-3 and of Gaussian beams (radius >= 0.3 wavelengths) < 10 %")
 ASSUMPTIONS = ["incident profiles, Yee time offsets and temporal amplitudes are read from the source object (oracle data)",
                "clause (b) is a measurement (test); thresholds are not proved"]
 TRUSTED = ["correspondence harness (1e-12 relative on injections)"]
@@ -36,12 +36,13 @@ def gen_cases(ctx):
                 "mats": {"seed": ctx.rng.randint(0, 10**6), "ncomp": 1, "pow2": True}}
         cases.append({"kind": "inject", "spec": spec, "steps": [0, 3]})
     leak = [(a, d) for a in range(3) for d in "+-"]
-    for axis, d in (leak if not ctx.quick else ctx.rng.sample(leak, 2)):
+    for j, (axis, d) in enumerate(leak if not ctx.quick else ctx.rng.sample(leak, 2)):
         pol = [0.0, 0.0, 0.0]
         ang = ctx.rng.random() * 1.5
         import math
         pol[(axis + 1) % 3], pol[(axis + 2) % 3] = math.cos(ang), math.sin(ang)
-        cases.append({"kind": "leak", "axis": axis, "dir": d, "pol": pol, "cpw": ctx.rng.choice([15, 16, 20]), "pulsed": bool(ctx.rng.random() < 0.5)})
+        cases.append({"kind": "leak", "axis": axis, "dir": d, "pol": pol, "cpw": ctx.rng.choice([15, 16, 20]), "pulsed": bool(ctx.rng.random() < 0.5),
+                      "eps": [ctx.rng.choice([2.25, 4.0, 12.0]), 1.0][j % 2]})      # homogeneous dielectric / vacuum
     for r in ([0.3, 0.45] if ctx.quick else [0.3, 0.35, 0.4, 0.5, 0.8, 1.2]):
         axis = ctx.rng.randint(0, 2)
         pol = [0.0, 0.0, 0.0]
@@ -84,7 +85,7 @@ def predicate(case, out):
         return None
     if case.get("gauss") is None:
         if out["ratio"] > 1e-3:
-            return (f"uniform-leak:axis={case['axis']};dir={case['dir']};pulsed={case['pulsed']}", f"uniform plane source sends {out['ratio']:.3e} of its power backward")
+            return (f"uniform-leak:axis={case['axis']};dir={case['dir']};pulsed={case['pulsed']};eps={case.get('eps', 1.0)}", f"uniform plane source sends {out['ratio']:.3e} of its power backward")
         return None
     if out["ratio"] > 0.10:
         r = case["gauss"]
